@@ -394,6 +394,20 @@ func (c15) Exec(sc *sim.Scenario, env *sim.Env) *sim.Violation {
 	if capacity > 1<<18 {
 		capacity = 1 << 18
 	}
+	{
+		// the program has to lie inside the 24-bit address space (the generator sees to it;
+		// shrinking may not): beyond $FFFFFF there are no addresses for a listing to show
+		var base, total int64
+		for _, op := range sc.Ops {
+			if op.K == "setbase" {
+				base = op.Arg(0) & 0xFFFFFF
+			}
+			total += int64(opSize(op))
+		}
+		if base+total > 1<<24 {
+			return nil
+		}
+	}
 	target, guard := mkTarget(capacity, sc.Seed&2 == 2)
 	e := asm.NewEmitter(target, true)
 	m := newAsmModel(true, capacity, true)
